@@ -199,6 +199,14 @@ func ruleR17d(h *H) {
 				}
 				if strings.Contains(pre, "notifications") {
 					keyFmt = append(keyFmt, strings.Replace(strings.Replace(s, "%%", "%", 1), "%s", pre, 1))
+				} else if strings.Contains(s, "notifications") {
+					// the prefix is already part of a composed constant format
+					keyFmt = append(keyFmt, strings.Replace(s, "%%", "%", 1))
+				}
+			}
+			if (f.Name() == "Sscanf" || f.Name() == "Sscan") && len(c.Args) > 1 {
+				if k2, ok := c.Args[1].(*ssa.Const); ok && k2.Value != nil && strings.Contains(constString(k2), "notifications") {
+					keyFmt = append(keyFmt, constString(k2))
 				}
 			}
 		})
